@@ -72,7 +72,37 @@ class Ctx:
     def run_model(self, lines):
         if not os.path.exists(self.mdl):
             raise RuntimeError("model binary unavailable (extraction or OCaml build failed)")
-        return self._run(self.mdl, lines, "model")
+        return self._run_sharded(self.mdl, lines, "model")
+
+    def _run_sharded(self, exe, lines, tag, shards=None):
+        """Run the (single-threaded) model on round-robin shards in parallel, keep case order."""
+        from concurrent.futures import ThreadPoolExecutor
+        n = shards or int(NPROC)
+        if len(lines) < 4 * n:
+            return self._run(exe, lines, tag)
+        parts = [lines[i::n] for i in range(n)]
+        self._n += 1
+        base = self._n
+        self._n += n
+
+        def one(k):
+            path = os.path.join(self.workdir, f"cases_{tag}_{base}_{k}.txt")
+            with open(path, "w") as f:
+                for l in parts[k]:
+                    f.write(l + "\n")
+            p = subprocess.run([exe, path], capture_output=True, text=True, timeout=3000, errors="replace")
+            out = p.stdout.split("\n")
+            if out and out[-1] == "":
+                out.pop()
+            if p.returncode != 0 or len(out) != len(parts[k]):
+                raise RuntimeError(f"{tag} runner failed on shard {k}: exit={p.returncode} in={len(parts[k])} out={len(out)} stderr={p.stderr[-1000:]}")
+            return out
+        with ThreadPoolExecutor(max_workers=n) as ex:
+            outs = list(ex.map(one, range(n)))
+        res = [None] * len(lines)
+        for k in range(n):
+            res[k::n] = outs[k]
+        return res
 
 
 def hexs(b):
